@@ -4,6 +4,8 @@ package vsimharness
 
 import (
 	"bufio"
+	"crypto/sha256"
+	"encoding/hex"
 	"encoding/json"
 	"fmt"
 	"os"
@@ -153,6 +155,36 @@ func TestWorker(t *testing.T) {
 			emit("FAIL", map[string]any{"idx": 0, "res": res, "tape": tapeToJSON(res.Tape)})
 		}
 		emit("AGG", Agg{Runs: 1})
+	case "det":
+		// determinism self-test: one run with the full schedule trace; emits a digest of everything observable
+		ws := selectWorkloads(job)
+		if len(ws) == 0 {
+			emit("ERROR", map[string]string{"error": "no workload"})
+			return
+		}
+		res := execute(t, ws[0], job.Tier, job.Base, job.Start, execOpts{trace: true, keepTape: true})
+		h := sha256.New()
+		for _, l := range res.Trace {
+			h.Write([]byte(l))
+			h.Write([]byte{10})
+		}
+		for _, d := range res.Tape {
+			fmt.Fprintf(h, "%d,%d,%d;", d.K, d.N, d.V)
+		}
+		for _, n := range res.Notes {
+			h.Write([]byte(n))
+		}
+		cls := ""
+		if res.Viol != nil {
+			cls = res.Viol.Class
+		}
+		fmt.Fprintf(h, "|%s|%d|%d|%d", cls, res.Steps, res.SimNs, res.Hash)
+		emit("DET", map[string]any{"digest": hex.EncodeToString(h.Sum(nil)), "steps": res.Steps, "trace_len": len(res.Trace), "tape_len": len(res.Tape), "ext": res.Ext, "class": cls, "sim_ns": res.SimNs})
+		if job.File == "dump" {
+			for i, l := range res.Trace {
+				out.WriteString(fmt.Sprintf("VSIM-TRACE %d %s\n", i, l))
+			}
+		}
 	case "replay", "trace":
 		runReplay(t, job)
 	case "minimise":
